@@ -220,7 +220,7 @@ def check_case(case, rec, lib, scratch):
         rec.violation("output/sign_all_in_repodata/" + why.split(" (")[0].replace(" ", "-")[:70], why, case)
         return
     if cc.calls and cc.calls != npk + nco:
-        rec.violation("probe/serialize_and_sign-call-count", "%d signing calls for %d artifacts" % (cc.calls, npk + nco), case)
+        rec.count("hint_serialize_and_sign_call_count_differs_from_artifact_count")  # inner observation only: the file is what is judged
     rec.count("probe_serialize_and_sign_calls", cc.calls)
     # ---- client side --------------------------------------------------------------
     signed = json.loads(got)
